@@ -2,5 +2,5 @@ SPECIFICATION Spec
 CONSTANTS
   MaxRows = 2
   MaxCols = 2
-INVARIANTS CsvRoundTrip HtmlRoundTrip
+INVARIANTS CsvRoundTrip HtmlRoundTrip JsonRoundTrip
 CHECK_DEADLOCK FALSE
